@@ -231,6 +231,15 @@ def run(ctx):
 
         def hook(m, inp, out):
             traced.append((m, int(inp[0].shape[-2]), int(out.shape[-2]), int(inp[0].shape[-1]), int(out.shape[-1])))
+        def block_hook(m, inp, out):
+            # the units the translator classifies by their effect on the size (Same / Half / Double) must have that effect
+            eff = archs.BLOCKS.get(type(m).__name__)
+            if eff and hasattr(out, "shape") and inp and hasattr(inp[0], "shape") and inp[0].dim() == 4:
+                hi, ho = int(inp[0].shape[-2]), int(out.shape[-2])
+                exp = {"Same": hi, "Half": (hi - 1) // 2 + 1, "Double": 2 * hi}[eff]
+                if ho != exp:
+                    ctx.broken.append("translator assumption: %s maps size %d to %d, classified as %s" % (type(m).__name__, hi, ho, eff))
+
         def keep_hook(m, inp, out):
             # layers the translator treats as size-preserving (GDN, PReLU, Sigmoid, ...) must be so
             if type(m).__name__ in archs.ELEMENTWISE and hasattr(out, "shape") and inp and hasattr(inp[0], "shape") and tuple(out.shape) != tuple(inp[0].shape):
@@ -240,6 +249,8 @@ def run(ctx):
                 hooks.append(m.register_forward_hook(hook))
             elif type(m).__name__ in archs.ELEMENTWISE:
                 hooks.append(m.register_forward_hook(keep_hook))
+            elif type(m).__name__ in archs.BLOCKS:
+                hooks.append(m.register_forward_hook(block_hook))
         return hooks
 
     for aname, mk, down, cout, extra, mult, out_range in arch:
